@@ -559,7 +559,20 @@ def gen(rng, tier):
     n = 400 if not thorough else 8000
     for i in range(n):
         cases.append({"fmt": "xml", "doc": xml_doc(rng), "src": {}})
-    return cases
+    # the same documents loaded under the other build options (--no-key-edits gives FixedKeyDictNode mappings, --no-list-edits
+    # ...): what is printed must still load back as the same document.  Monitor only (the model printer is not asked).
+    plain = [c for c in cases if not c.get("mode") and not c.get("pre") and not c.get("prediff") and c["fmt"] != "csv"]
+    step = max(1, len(plain) // (150 if tier == "quick" else 1500))
+    combos = [{"allow_key_edits": False}, {"allow_key_edits": False, "allow_list_edits": False},
+              {"allow_list_edits_when_same_length": False}]
+    extra = []
+    for j, c in enumerate(plain[::step]):
+        extra.append(dict(c, build=combos[j % len(combos)]))
+    for fmt in ("yaml", "json", "json5", "plist"):   # nested mappings as VALUES of mapping keys, at two depths
+        for b in combos[:2]:
+            for d in ({"a": {"b": "x1", "c": "y2"}, "d": "z3"}, {"a": {"b": {"c": [1, {"e": "f"}]}}, "g": [{"h": {"i": "j"}}]}):
+                extra.append({"fmt": fmt, "doc": enc(d), "src": {}, "build": b})
+    return cases + extra
 
 
 # ------------------------------------------------------------------------------------------------ implementation side
@@ -719,8 +732,11 @@ def impl(case):
         except Exception as e:
             return dict(obs, **_exc(e), stage="read-rejects")
         return dict(obs, stage="read-ok", obj2=tree_obj(fmt, t1))
+    bopts = None
+    if case.get("build"):
+        bopts = graphtage.BuildOptions(**case["build"])
     try:
-        t1 = ft.build_tree(p1)
+        t1 = ft.build_tree(p1, options=bopts) if bopts is not None else ft.build_tree(p1)
     except Exception as e:  # the reference dumper's text is not accepted: no loaded document, nothing to check
         return dict(_exc(e), stage="load1-raises")
     obj1 = tree_obj(fmt, t1)
@@ -766,7 +782,7 @@ def impl(case):
     with open(p2, "wb") as f:
         f.write(raw)
     try:
-        t2 = ft.build_tree(p2)
+        t2 = ft.build_tree(p2, options=bopts) if bopts is not None else ft.build_tree(p2)
     except Exception as e:
         return dict(obs, **_exc(e), stage="reload-rejects")
     obs["stage"] = "ok"
@@ -1100,7 +1116,7 @@ def _canonical_json_text(case):
 
 
 def to_model(case, obs):
-    if case.get("pre"):
+    if case.get("pre") or case.get("build"):
         # the text may legitimately differ in layout after another format changed the printer's indentation width; the round trip of
         # the data is what the monitor checks
         return None
